@@ -441,7 +441,7 @@ impl Prop for C11 {
             }
             "ir-scale" => {
                 // n = 100 * shape + 2 * size index + path; shapes: 0 many macros, 1 one BEGINEXT block of many words, 2 one macro with many pins,
-                // 3 many PROPERTYDEFINITIONS entries, 4 one very long comment line followed by an error
+                // 3 many PROPERTYDEFINITIONS entries, 4 one very long comment line followed by an error, 5 many ports followed by a long extension block
                 let (shape, k) = (cx.n / 100, cx.n % 100);
                 if shape > 0 {
                     let n = 400usize << (k / 2);
@@ -470,6 +470,23 @@ impl Prop for C11 {
                                 text.push_str(&format!("  MACRO prop{} INTEGER ;\n", i));
                             }
                             text.push_str("END PROPERTYDEFINITIONS\n");
+                        }
+                        5 => {
+                            // two things that are each linear, one after the other: a macro with many ports, then an extension block of as
+                            // many words (work per word that depends on what was read before - a context stack that was never popped,
+                            // a growing table that is scanned - shows as their product)
+                            text.push_str("MACRO ported\n  SIZE 1 BY 1 ;\n");
+                            for i in 0..n {
+                                text.push_str(&format!("  PIN p{}\n    DIRECTION INPUT ;\n    PORT\n      LAYER m1 ;\n      RECT 0 0 1 1 ;\n    END\n  END p{}\n", i, i));
+                            }
+                            text.push_str("END ported\nBEGINEXT \"tag\"\n");
+                            for i in 0..n {
+                                text.push_str(&format!("word{} ", i % 977));
+                                if i % 16 == 15 {
+                                    text.push('\n');
+                                }
+                            }
+                            text.push_str("\nENDEXT\n");
                         }
                         _ => {
                             text.push_str("# ");
